@@ -40,7 +40,7 @@ FAMILY = {"A": "a", "A1": "a", "B": "bc", "C": "bc", "D": "d", "E": "e", "F": "f
 # argument pool, chosen to collide: -1/-2 (equal hashes, unequal values),
 # 1 / 1.0 / True (equal values), tuples built afresh on every use, strings
 ARG_POOL = [-1, -2, 0, 1, 1.0, True, "a", "b", ["t", 1], ["t", 2], [], None, 2**61 - 1, 0.5, False, 0.0]
-KW_NAMES = ["x", "y", "z", "key", "hashfunc", "instance", "name", "obj"]
+KW_NAMES = ["x", "y", "z", "key", "hashfunc", "instance", "name", "obj", "default", "fallback", "create", "strict"]
 
 
 # mutable argument objects the simulated caller keeps between calls (per run:
